@@ -174,7 +174,7 @@ static void c03(const Trace& t, const Analysis& A, Verdict& V) {
 			const uint32_t g0 = w.rounds.front().first, g1 = w.rounds.back().last;
 			for (uint32_t i = g0; i <= g1 && i < w.e; ++i) { const Ev& e = t.ev[i]; if (e.inst == w.inst && e.kind == EV_CB && isLife(e.method)) { V.add(3, i, "enter/exit/reenter ran during guard evaluation"); break; } }
 		}
-		if (w.lostRequest.valid) V.add(3, w.rounds.back().last, F("the guard request %s was neither evaluated by a fresh round of guards nor left outstanding (accepted so far: %s)", trStr(w.lostRequest).c_str(), w.survivor >= 0 ? trStr(w.rounds[w.survivor].pend).c_str() : "-"));
+		if (w.lostRequest.valid && !w.rounds.empty()) V.add(3, w.rounds.back().last, F("the guard request %s was neither evaluated by a fresh round of guards nor left outstanding (accepted so far: %s)", trStr(w.lostRequest).c_str(), w.survivor >= 0 ? trStr(w.rounds[w.survivor].pend).c_str() : "-"));
 		// every enter/reenter is justified by the last passing round
 		const LifeSeq ls = lifeSelf(t, w);
 		for (size_t k = 0; k < ls.v.size(); ++k) {
